@@ -300,7 +300,7 @@ DE_FN = ["EventLoop::dispatch_events (+ closures #0, #1)"]
 DE_B = "one iteration of the events loop of dispatch_events from an ARBITRARY state of all loop-carried locals (havoc at the loop head), all paths; other loops cut after their first iteration"
 DE_B1 = "dispatch_events for a batch of exactly one event (events loop unwound once, then the loop-exit assumption), all paths to the return"
 M_DE = {
-    "pa2": M("pa2_reset", OB.ob_pa2_reset, OB.ob_pa2_reset.__doc__, DE_FN, DE_B, replay=["d3_pending_action_error_path"]),
+    "pa2": M("pa2_reset", OB.ob_pa2_reset, OB.ob_pa2_reset.__doc__, DE_FN, DE_B, replay=["d3_pending_action_error_path", "c08_reentrancy_scenarios"]),
     "pav": M("pa_value", OB.ob_pa_value, OB.ob_pa_value.__doc__, DE_FN, DE_B, replay=["d3_pending_action_error_path", "c08_reentrancy_scenarios"]),
     "disp1": M("disp1_receiver", OB.ob_disp1_receiver, OB.ob_disp1_receiver.__doc__, DE_FN, DE_B, replay=["c01_routing_scenarios", "c14_lifecycle_scenarios", "c16_removed_in_callback"]),
     "fsub": M("tokens_forget_sub", OB.ob_tokens_forget_sub, OB.ob_tokens_forget_sub.__doc__, DE_FN, DE_B, replay=["c14_lifecycle_scenarios", "d15_remove_with_failing_unregister_lifecycle"]),
@@ -367,7 +367,7 @@ M_TM = {
 }
 M_POLL = M("poll", OB.ob_poll, OB.ob_poll.__doc__, ["sys::Poll::poll"], "timer drain loop unrolled twice", replay=["c01_routing_scenarios", "c05_timer_scenarios", "p_sig_stress"])
 M_DELEG = M("delegation", OB.ob_delegation, OB.ob_delegation.__doc__, ["PingSource/Channel/Executor/StreamSource/Signals ::register/reregister/unregister"],
-            "all paths (loop-free)", replay=["c01_routing_scenarios", "p_chan_stress"])
+            "all paths (loop-free)", replay=["c01_routing_scenarios", "p_chan_stress", "p_ping_stress"])
 M_TOK = M("token", OB.ob_token, OB.ob_token.__doc__, TOKEN_FNS, "full 64-bit key space (bit-vector validity queries, no unrolling)",
           replay=["c01_routing_scenarios"])
 M_SLOTS = M("slots_never_deallocated", OB.ob_slots_never_deallocated, OB.ob_slots_never_deallocated.__doc__,
@@ -400,7 +400,7 @@ def addm(pid, obs):
 addm("C01", [M_DE["disp1"], M_DE["fsub"], M_DE["lc2"], M_TOK, M_TM["timer"]])
 addm("C20", [M_TOK, M_SLOTS])
 addm("C02", [M_DE["disp1"], M_CH["process"], M_EX["process"], M_POLL, M_IO["io"], M_IO["new"]])
-addm("C03", [M_PING["ping"], P_Q["ping"]])
+addm("C03", [M_PING["ping"], P_Q["ping"], M_DELEG])   # round 9 (seed C03-5): the wake-up only exists if register() really registers
 P("C04", "model_checking", [], [M_CH["send"], M_CH["process"], M_PING["ping"], P_Q["chan"]],
   bounds="engine M: all paths, receive loop unrolled twice, batch limit for every 64-bit capacity; engine P: see obligation bounds",
   outside="std::sync::mpsc itself (linearizable FIFO, disconnect when the last sender is dropped; try_recv on a zero-capacity "
